@@ -22,7 +22,10 @@ KeyIndices(key, n) ==
 KeyInRange(key, n) == key[1] # "int" \/ (key[2] >= -n /\ key[2] < n)      \* out-of-range slices select nothing
 
 (* axis bookkeeping over a description *)
-FuncsWithAxis(d, a) == {i \in FIdx(d) : HasMapInputs(d.funcs[i]) /\ a \in InputAxisNames(d.funcs[i])}
+(* F = the functions of the run (the whole pipeline, or the sub-pipeline that output_names / provided intermediates select): *)
+(* a request is judged against the functions that actually run                                                          *)
+FuncsWithAxisF(d, F, a) == {i \in F : HasMapInputs(d.funcs[i]) /\ a \in InputAxisNames(d.funcs[i])}
+FuncsWithAxis(d, a) == FuncsWithAxisF(d, FIdx(d), a)
 AxisKnown(d, a)     == FuncsWithAxis(d, a) # {}
 AxisSizeOf(d, env, a) == AxisSize(d, env, CHOOSE i \in FuncsWithAxis(d, a) : TRUE, a)
 (* axes of the array named x (as its producer / first consumer names them) *)
@@ -36,20 +39,22 @@ ArrayAxes(d, x) ==
                  IN  Merge(S \ {i}, [k \in DOMAIN ax |-> IF k \in DOMAIN acc /\ acc[k] # ":" THEN acc[k] ELSE ax[k]])
          IN  Merge(users, <<>>)
 (* axis a of array x is reduced: some function takes x whole, or with ':' at a's position *)
-ReducedAxes(d) ==
+ReducedAxesF(d, F) ==
     UNION {UNION {
         IF x \in ParamsOf(d, i) /\ ~IsBound(d, i, x) /\ ~IsMappedParam(d.funcs[i], x)
         THEN {ArrayAxes(d, x)[k] : k \in DOMAIN ArrayAxes(d, x)}
         ELSE IF IsMappedParam(d.funcs[i], x)
         THEN {ArrayAxes(d, x)[k] : k \in {m \in DOMAIN ArrayAxes(d, x) : m \in DOMAIN InSpecOf(d.funcs[i], x).axes
                                                                         /\ InSpecOf(d.funcs[i], x).axes[m] = ":"}}
-        ELSE {} : i \in FIdx(d)} : x \in AllParams(d) \cup AllOutputs(d)} \ {":"}
+        ELSE {} : i \in F} : x \in AllParams(d) \cup AllOutputs(d)} \ {":"}
+ReducedAxes(d) == ReducedAxesF(d, FIdx(d))
 
 (* raw = sequence of <<axis, key>> *)
-ValidFixed(d, env, raw) ==
+ValidFixedF(d, env, F, raw) ==
     \A k \in DOMAIN raw :
-        /\ AxisKnown(d, raw[k][1])
-        /\ raw[k][1] \notin ReducedAxes(d)
+        /\ FuncsWithAxisF(d, F, raw[k][1]) # {}
+        /\ raw[k][1] \notin ReducedAxesF(d, F)
         /\ KeyInRange(raw[k][2], AxisSizeOf(d, env, raw[k][1]))
+ValidFixed(d, env, raw) == ValidFixedF(d, env, FIdx(d), raw)
 Resolve(d, env, raw) == [k \in DOMAIN raw |-> <<raw[k][1], KeyIndices(raw[k][2], AxisSizeOf(d, env, raw[k][1]))>>]
 =============================================================================
